@@ -198,7 +198,12 @@ class DispatchRandom:
 
 
 def core_proxy(stub=None):
+    def _dt(dtype):
+        # the harness replaces the module-level name `float` by the identity (float() of a symbolic value); as a dtype it still means float64
+        return float if (callable(dtype) and not isinstance(dtype, type) and not isinstance(dtype, np.dtype)) else dtype
+
     def array(obj, dtype=None, **k):
+        dtype = _dt(dtype)
         flat = np.array(obj, dtype=object)
         if any(is_sym(v) for v in flat.reshape(-1)):
             return flat.view(SymArray)
@@ -222,6 +227,7 @@ def core_proxy(stub=None):
             out[idx] = one(arr[idx])
         return out.view(SymArray) if arr.ndim else out.item()
     def asarray(obj, dtype=None, **k):
+        dtype = _dt(dtype)
         if isinstance(obj, np.ndarray) and obj.dtype == object and dtype in (float, np.float64) and any(is_sym(v) for v in obj.reshape(-1)):
             return obj  # conversion to double is the identity in the exact-real model
         if dtype in (float, np.float64) and not isinstance(obj, np.ndarray):
@@ -672,13 +678,75 @@ def make_resume_calls(strat):
                       stubs=["file system / dill -> by-value doubles (C08)", "likelihood -> counting uninterpreted callback"], theory="QF_LIA")
 
 
+def make_output_kind():
+    """a pointwise identical likelihood may hand back its values in another container: single precision, or a read-only array (a view
+    of a device buffer). The evaluation strategy must not leak that into the algorithm: the log-likelihoods the sampler works with are
+    float64 and writable under every strategy, and equal bit for bit."""
+    X = np.array([[0.3], [0.8], [0.55]])
+
+    def build(kind):
+        def point(xr):
+            return np.float32(-np.sum((np.asarray(xr) - 0.25) ** 2))
+
+        def batch(xx):
+            out = np.array([point(r) for r in xx], dtype=np.float32)
+            if kind == "readonly":
+                out = out.astype(np.float64)
+                out.setflags(write=False)
+            return out
+        kw = dict(n_dim=1, n_particles=3, clustering=False)
+        return (Sampler(lambda u: u, batch, vectorize=True, **kw), Sampler(lambda u: u, lambda xr: float(point(xr)) if kind == "readonly" else point(xr), **kw))
+
+    def verdicts():
+        out = []
+        for kind in ("float32", "readonly"):
+            sv, ss = build(kind)
+            lv, _ = sv._core._log_like(X.copy())
+            ls, _ = ss._core._log_like(X.copy())
+            lv, ls = np.asarray(lv), np.asarray(ls)
+            out.append((f"{kind}:vectorised-and-pointwise-values-are-the-same-float64-numbers", bool(lv.dtype == np.float64 and ls.dtype == np.float64 and lv.tobytes() == ls.tobytes()),
+                        {"dtype_vectorised": str(lv.dtype), "dtype_pointwise": str(ls.dtype)}))
+            out.append((f"{kind}:values-handed-to-the-sampler-are-writable-under-both-strategies", bool(lv.flags.writeable and ls.flags.writeable), None))
+        return out
+
+    def harness(ctx: PathCtx):
+        for label, ok, detail in verdicts():
+            ctx.check(label, z3.BoolVal(ok), detail=detail)
+        x = integer(ctx, "dummy", lo=0, hi=0)
+        return None
+
+    def replay(m, label, v):
+        bad = [(l_, d_) for l_, ok, d_ in verdicts() if not ok]
+        # end to end: same seed, same likelihood values, vectorised float32 vs pointwise
+        s0 = np.random.get_state()
+        try:
+            def ll_b(xx):
+                return (-np.sum((xx - 0.4) ** 2, axis=1) * 20).astype(np.float32)
+            a = Sampler(lambda u: u, ll_b, n_dim=2, n_particles=16, vectorize=True, clustering=False, random_state=3)
+            b = Sampler(lambda u: u, lambda xr: ll_b(xr[None, :])[0], n_dim=2, n_particles=16, clustering=False, random_state=3)
+            with warnings.catch_warnings():
+                warnings.simplefilter("ignore")
+                a.run(n_total=64, progress=False)
+                b.run(n_total=64, progress=False)
+            za, zb = float(a.evidence()[0]), float(b.evidence()[0])
+        finally:
+            np.random.set_state(s0)
+        return {"reproduced": bool(bad) or za != zb, "signature": "_log_like:vectorised-output-passed-through-untouched", "payload": {"violated": [b_[0] for b_ in bad], "logz_vectorised": za, "logz_pointwise": zb},
+                "what": f"a likelihood returning single-precision values: under vectorize=True the sampler works with {bad[0][1] if bad and bad[0][1] else 'the user array itself'}; "
+                        f"same seed, same likelihood: evidence {za!r} (vectorised) vs {zb!r} (pointwise)"}
+
+    return Obligation("loglike-output-kind", harness, replay=replay, encodes=[core_mod.SamplerCore._log_like],
+                      bounds="3 concrete points; likelihood returning float32 values / a read-only float64 array; vectorised and pointwise strategies",
+                      stubs=[], theory="QF_LIA")
+
+
 def obligations(tier):
     obs = []
     for strat in STRATS:
         for blobs in ((False, True) if not strat.startswith("vectorized") else (False,)):
             obs.append(make_loglike(strat, blobs, 3 if tier == "quick" else 3))
     obs += [make_paired("vectorized", "serial", "warmup"), make_paired("vectorized", "serial", "warmup", inf=True), make_paired("serial", "pool-object", "mcmc"),
-            make_paired("vectorized", "serial", "mcmc"), make_resume_calls("serial"), make_resume_calls("vectorized")]
+            make_paired("vectorized", "serial", "mcmc"), make_resume_calls("serial"), make_resume_calls("vectorized"), make_output_kind()]
     if tier == "thorough":
         obs += [make_paired("vectorized", "pool-object", "warmup"), make_paired("serial", "pool-int", "mcmc"),
                 make_paired("vectorized", "pool-object", "mcmc", d=1, n=3), make_loglike("pool-object", True, 4), make_loglike("pool-int", False, 4)]
